@@ -119,7 +119,7 @@ CODE = """
 
     // ---- dynamic entry point: mismatched sizes / component counts are rejected before anything is written ----
     #[kani::proof]
-    #[kani::unwind(6)]
+    #[kani::unwind(14)]
     fn m3_map_rejects_mismatch() {
         let tables = MappingTablesGroup {
             u8_u8: Box::new(MappingTable([1u8; 256])), u8_u16: Box::new(MappingTable([1u16; 256])),
